@@ -806,7 +806,25 @@ def _closure_pat(ex, hay, clo, how):
     if not isinstance(s, (bytes, bytearray)):
         bs, ln, cap = S.parts(s)
         if not (isinstance(ln, int) and all(isinstance(b, int) for b in bs[:ln])):
-            raise Unsupported('char predicate pattern on a symbolic string')
+            if how != 'contains':
+                raise Unsupported('char predicate pattern (%s) on a symbolic string' % how)
+            # symbolic ASCII string: the predicate's MIR runs on each byte as a char (a path on which some byte is not ASCII
+            # is not modelled)
+            hits = []
+            for i in range(cap):
+                b = bs[i]
+                inlen = (i < ln) if isinstance(ln, int) else z3.UGT(ln, z3.BitVecVal(i, 64))
+                if inlen is False:
+                    continue
+                if not isinstance(b, int):
+                    if not ex.branch(z3.Or(z3.Not(z3bool(inlen)), z3.ULT(b, 0x80))):
+                        raise Unsupported('char predicate pattern on a symbolic non-ASCII string')
+                ch = BV(b, 'char') if isinstance(b, int) else BV(z3.ZeroExt(24, b), 'char')
+                r = ex.call_closure(clo, [ch])
+                if r is False:
+                    continue
+                hits.append(b_and(inlen, r))
+            return b_or(*hits) if hits else False
         s = bytes(bs[:ln])
     try:
         chars = s.decode('utf-8')
